@@ -1111,7 +1111,10 @@ class Variable(CanBehaveLikeAVariable[T]):
         values = {self._id_: hv}
         for d in kwargs.values():
             values.update(d.bindings)
-        return OperationResult(values, self._truth_value_is_false_(instance), self)
+        # operators that select between their operands (else-if, alternative, ...) read the current truth value of
+        # an operand from the operand itself
+        self._is_false_ = self._truth_value_is_false_(instance)
+        return OperationResult(values, self._is_false_, self)
 
     def _truth_value_is_false_(self, value: Any) -> bool:
         """
